@@ -462,7 +462,7 @@ func (r *rewriter) exprPass() {
 			if id, ok := e.X.(*ast.Ident); ok {
 				if pn, ok := r.info.Uses[id].(*types.PkgName); ok && pn.Imported().Path() == "sync" {
 					switch e.Sel.Name {
-					case "Mutex", "RWMutex", "WaitGroup", "Once", "Locker", "Cond", "NewCond", "Map":
+					case "Mutex", "RWMutex", "WaitGroup", "Once", "Locker", "Cond", "NewCond", "Map", "Pool":
 					default:
 						failf(r.fset, e.Pos(), "sync.%s is not modelled by simrt", e.Sel.Name)
 					}
